@@ -273,6 +273,9 @@ type Opts struct {
 	// SessFactory, if set, supplies the session objects instead of the harness's own type (used to exercise the
 	// session types fosite ships: fosite.DefaultSession, oauth2.JWTSession). Such worlds cannot run OpenID Connect flows.
 	SessFactory func(subject string) fosite.Session
+	// RealJWKS uses fosite's shipped DefaultJWKSFetcherStrategy (with its cache) over the stub HTTP transport instead of the
+	// cache-less stub strategy.
+	RealJWKS bool
 }
 
 type World struct {
@@ -291,6 +294,8 @@ type World struct {
 	opNext int
 	// HTTPDoer answers request_uri / jwks_uri fetches (no network).
 	Fetch func(url string) (int, string)
+	// JWKSSettle waits until the shipped JWKS fetcher's cache has absorbed pending writes (RealJWKS worlds only).
+	JWKSSettle func()
 	// IDAlg, if set, is written into the ID-token header of every session the harness creates
 	// (the integrator's duty when the signing key is not RS256).
 	IDAlg string
@@ -333,6 +338,12 @@ func New(o Opts) *World {
 		cfg.JWKSFetcherStrategy = StubJWKS{w}
 	}
 	cfg.HTTPClient = stubHTTP(w)
+	w.JWKSSettle = func() {}
+	if o.RealJWKS {
+		f := fosite.NewDefaultJWKSFetcherStrategy(fosite.JWKSFetcherWithHTTPClient(stubHTTP(w)))
+		cfg.JWKSFetcherStrategy = f
+		w.JWKSSettle = f.(*fosite.DefaultJWKSFetcherStrategy).WaitForCache
+	}
 	if o.Cfg != nil {
 		o.Cfg(cfg)
 	}
